@@ -286,6 +286,39 @@ def bv_ops_items(ctx):
     return it
 GROUPS["bv_ops"] = dict(name="bv_ops", features="#![feature(allocator_api)]", prelude=bv_ops_prelude, items=bv_ops_items)
 
+GROUPS["bvd_cmp"] = G("bvd_cmp", BVD_VAL_PRELUDE + ["cmp_words.rs", "bvd_cmp.rs"], BVD_BASE + stub(BVD_CORE) + verify(["bvd.eq_bvd", "bvd.cmp_bvd"]))
+GROUPS["bvd_cmp"]["features"] = "#![feature(allocator_api)]"
+
+GROUPS["bvd_cmp_bvf"] = dict(name="bvd_cmp_bvf", features="#![feature(allocator_api)]",
+    prelude=lambda ctx: BVD_VAL_PRELUDE + src_bvf_prelude(dict(ctx, SGN="+")) + ["cmp_words.rs", "bvd_cmp.rs"],
+    items=lambda ctx: BVD_BASE + src_bvf_items(ctx) + stub(BVD_CORE) + verify(["bvd.eq_bvf", "bvd.partial_cmp_bvf"]))
+
+# forwarding comparisons. Stub ctx for Bvd's view of a Bvf<I,_> operand: J = I
+def bvf_cmp_fwd_prelude(ctx):
+    return WORD_PRELUDE + ["conv_std.rs"] + VALUE_PRELUDE + ["bvf.rs", "bvf_val.rs"] + rhs_bvd_val_prelude(dict(ctx, SGN="+")) + ["cmp_std.rs"]
+def bvf_cmp_fwd_items(ctx):
+    it = BVF_BASE + [("decl", "decl.Bvd")] + stub(BVF_CORE)
+    it += [("stub", "bvf.partial_cmp_bvf", {"J": "{I}", "XJ": ""})]
+    it += [("stub", "bvd.eq_bvf", {"I": "u64", "J": "{I}", "X": "{XD}", "XJ": ""}), ("stub", "bvd.partial_cmp_bvf", {"I": "u64", "J": "{I}", "X": "{XD}", "XJ": ""})]
+    return it + verify(["bvf.cmp", "bvf.eq_bvd", "bvf.partial_cmp_bvd"])
+GROUPS["bvf_cmp_fwd"] = dict(name="bvf_cmp_fwd", features="#![feature(allocator_api)]", prelude=bvf_cmp_fwd_prelude, items=bvf_cmp_fwd_items)
+GROUPS["bvd_cmp_fwd"] = G("bvd_cmp_fwd", BVD_VAL_PRELUDE + ["cmp_std.rs"], BVD_BASE + stub(BVD_CORE) + stub(["bvd.cmp_bvd"]) + verify(["bvd.partial_cmp_bvd"]))
+GROUPS["bvd_cmp_fwd"]["features"] = "#![feature(allocator_api)]"
+
+def bv_cmp_prelude(ctx):
+    return bv_ops_prelude(dict(ctx, SGN="+")) + ["cmp_std.rs"]
+def bv_cmp_items(ctx):
+    it = BASE_DECLS + [("decl", "decl.Bvd"), ("decl", "decl.Bv128"), ("decl", "decl.Bvp"), ("decl", "decl.Bv")] + stub_int() + BIT_CONV_STUB + [("decl", "bvf.consts"), ("decl", "bvd.consts")]
+    it += int_impl_j(ctx)
+    it += [("stub", "bvf.eq_bvf"), ("stub", "bvf.partial_cmp_bvf"), ("stub", "bvd.eq_bvf"), ("stub", "bvd.partial_cmp_bvf")]
+    it += [("verify", "bv.eq_bvf"), ("verify", "bv.partial_cmp_bvf")]
+    it += [("verify", "bvf.eq_bv", {"I": "{J}", "X": "{XJ}"}), ("verify", "bvf.partial_cmp_bv", {"I": "{J}", "X": "{XJ}"})]
+    if ctx["J"] == "u64":
+        it += stub(["bvf.cmp", "bvf.eq_bvd", "bvf.partial_cmp_bvd", "bvd.eq_bvd", "bvd.cmp_bvd", "bvd.partial_cmp_bvd"])
+        it += verify(["bv.eq_bv", "bv.eq_bvd", "bv.partial_cmp_bvd", "bv.cmp", "bv.partial_cmp_bv", "bvd.eq_bv", "bvd.partial_cmp_bv"])
+    return it
+GROUPS["bv_cmp"] = dict(name="bv_cmp", features="#![feature(allocator_api)]", prelude=bv_cmp_prelude, items=bv_cmp_items)
+
 def cmp_prelude(ctx):
     """self: Bvf<I,_>, other: Bvf<J,_>, both read in chunks of J"""
     p = WORD_PRELUDE + ["conv_std.rs"] + VALUE_PRELUDE + ["bvf.rs", "bvf_val.rs", "iarray.rs"]
@@ -456,6 +489,11 @@ PROPS["C04"]["quick"] += bv_ops_jobs(WQ, ("and", "or", "xor"), BITOPS)
 PROPS["C04"]["thorough"] += bv_ops_jobs(W4, ("and", "or", "xor"), BITOPS)
 PROPS["C01"]["quick"] += bv_ops_jobs(WQ, ("add", "sub"), ARITH_D)
 PROPS["C01"]["thorough"] += bv_ops_jobs(W4, ("add", "sub"), ARITH_D)
+def cmp_more_jobs(ws):
+    return ([("bvd_cmp", U64), ("bvd_cmp_fwd", U64)] + [("bvd_cmp_bvf", pair("u64", j)) for j in ws] +
+            [("bvf_cmp_fwd", dctx(i)) for i in ws] + [("bv_cmp", pair("u64", j)) for j in ws])
+PROPS["C09"]["quick"] += cmp_more_jobs(WQ)
+PROPS["C09"]["thorough"] += cmp_more_jobs(W4)
 BVD_ARITH_JOBS = [("bvd_arith", dict(U64, **ARITH_D[o])) for o in ("add", "sub")]
 PROPS["C01"]["quick"] += BVD_ARITH_JOBS
 PROPS["C01"]["thorough"] += BVD_ARITH_JOBS
@@ -536,9 +574,13 @@ MANIFEST_TEXT["C03"] = dict(
     note=("The induction covers only operations under contract (see functions_under_contract in the evidence of C01, C04-C09, C16, C18, C19); multiplication, division, native-integer operands, append/prepend/insert "
           "operands are covered by the second engine only. " + TRUST_NOTE))
 MANIFEST_TEXT["C09"] = dict(
-    text=("Proof: PartialEq::eq and PartialOrd::partial_cmp between Bvf<I2,N2> and Bvf<I1,N1> (any two word sizes; chunk-wise comparison through get_int from the most significant chunk) are verified against the VALUE-level contract "
-          "`r == (val(a) == val(b))` resp. `r == Some(val(a).cmp(val(b)))`, using a proved theory of the unsigned value of a bit list (injectivity, order decided by the top differing bit). Reflexivity/symmetry/transitivity/totality follow because both are the same function of two naturals." + DYN_NOTE),
-    note=("Covered so far by proof: Bvf vs Bvf (u8..u64 words). Not yet under contract: Bvd/Bv comparisons, the delegating mixed-type impls, Ord::cmp (covered by the second engine only). " + TRUST_NOTE))
+    text=("Proof: EVERY PartialEq / PartialOrd / Ord impl of the crate is under contract `r == (val(a) == val(b))` resp. `r == Some(ord(val(a), val(b)))` / `ord(val(a), val(b))` over the unsigned VALUES: "
+          "the three leaf algorithms (Bvf vs Bvf for any two word sizes, chunk-wise through get_int; Bvd vs Bvd word-wise with missing words read as 0, == and cmp; Bvd vs Bvf<J,N>) are verified against a proved theory of the "
+          "value of a bit list (injectivity, order decided by the top differing word), and every forwarding impl (Bvf vs Bvd / Bv, Bvd vs Bv, all Bv impls incl. Ord::cmp, PartialOrd-via-cmp, the reversed delegations through "
+          "Ordering::reverse) is verified against the same value-level contract with the leaf contracts as stubs. Reflexivity/symmetry/transitivity/totality, agreement between == and cmp, and independence of length, "
+          "implementation, word size and spare capacity follow because all are the same functions of two naturals." + DYN_NOTE),
+    note=("Comparison impls are emitted as inherent methods (Verus mis-verifies reversed for-loops reached from a trait impl; DESIGN 0), overloaded calls are resolved to the inherent names by recorded unit-local rewrites (R19b). "
+          "Assumed: Ordering::reverse (T1), A-size for comparisons: a Bvd/Bv operand is shorter than usize::MAX/64 bits (the Bvd-vs-Bvf loops run over max(len_in_BITS, words) indices). u128/usize word types: second engine only. " + TRUST_NOTE))
 dyn_only("C10", "a recording Hasher: equal values (same and different lengths, inline vs heap, spare capacity) must feed identical bytes.", "Hash units (uninterpreted hasher feed model prototyped) not yet woven; D8 was found and fixed.")
 dyn_only("C11", "TryFrom/From between the six native integer types and Bvf/Bvd/Bv in both directions, Bit conversions, slice conversions, against the documented length/value/error rules.", "Conversion units not yet written; D5 was found and fixed.")
 MANIFEST_TEXT["C12"] = dict(
